@@ -1063,4 +1063,260 @@ Section EqualStayEqual.
       destruct (urun pol st1 h) as [st2 rs]. cbn [fst] in *.
       exists p2. split; [eapply ren_incl_trans; eauto | exact HI2].
   Qed.
+  (* the composite IDs handed out along a history *)
+  Fixpoint issued_after (pol : policy) (issued : list bytes) (st : ustate) (h : list (choice * op)) : list bytes :=
+    match h with
+    | [] => issued
+    | (c, o) :: h' => issued_after pol (issue issued o (snd (ustep pol c st o))) (fst (ustep pol c st o)) h'
+    end.
+
+  (* ... and every composite ID handed out along the way decodes to the two members' own
+     IDs of one and the same upload *)
+  Lemma equal_stay_equal_ids pol h : forall st p issued,
+    Inv p st -> issued_ok p issued -> closed_loop pol issued st h ->
+    exists p', ren_incl p p' /\ Inv p' (fst (urun pol st h))
+               /\ issued_ok p' (issued_after pol issued st h)
+               /\ forall id, In id (issued_after pol issued st h) ->
+                    exists a b, iddec id = Some [a; b] /\ In (a, b) (r_ids p').
+  Proof.
+    induction h as [|[c o] h IH]; intros st p issued HI Hiss Hcl.
+    - exists p. split; [apply ren_incl_refl|]. split; [exact HI|]. split; [exact Hiss|].
+      intros id Hid. destruct (Hiss id Hid) as (a & b & -> & Hab & Ha & Hb).
+      exists a, b. split; [now apply H_codec | exact Hab].
+    - cbn [closed_loop] in Hcl. destruct Hcl as [Hr Hcl].
+      destruct (step_sim pol c st o p issued HI Hiss Hr) as (p1 & I1 & HI1 & Hiss1).
+      cbn [Unify.urun issued_after]. destruct (ustep pol c st o) as [st1 r] eqn:E. cbn [fst snd] in *.
+      destruct (IH st1 p1 _ HI1 Hiss1 Hcl) as (p2 & I2 & HI2 & Hiss2 & Hdec).
+      destruct (urun pol st1 h) as [st2 rs]. cbn [fst] in *.
+      exists p2. split; [eapply ren_incl_trans; eauto|]. split; [exact HI2|]. split; [exact Hiss2 | exact Hdec].
+  Qed.
 End EqualStayEqual.
+
+(* ---------- union listings ---------- *)
+
+Section Listings.
+  Context {B0 B1 : Type}.
+  Variable step0 : registry B0.
+  Variable step1 : registry B1.
+  Variable idenc : bytes -> bytes -> bytes.
+  Variable iddec : bytes -> option (list bytes).
+  Notation ustate := (ustate B0 B1).
+  Notation ustep := (ustep step0 step1 idenc iddec).
+  Notation ans0 := (ans0 step0).
+  Notation ans1 := (ans1 step1).
+
+  Definition is_string_listing (o : op) : bool :=
+    match o with Repositories _ | Tags _ _ => true | _ => false end.
+
+  (* union_listings, repositories and tags: the items are THE strictly ascending
+     duplicate-free list of the union of what the members list (for members that list in
+     ascending order: the two-way merge); a repository unknown to one member counts as
+     that member's empty listing, unknown to both it is unknown; any other member error
+     ends the listing, after the items *)
+  Lemma union_listings_strings pol c st o :
+    is_string_listing o = true -> proper (ans0 st o) -> proper (ans1 st o) ->
+    let xs0 := fst (as_strings (ans0 st o)) in let e0 := snd (as_strings (ans0 st o)) in
+    let xs1 := fst (as_strings (ans1 st o)) in let e1 := snd (as_strings (ans1 st o)) in
+    exists xs, snd (ustep pol c st o) = Ok (RList xs (merged_err e0 e1))
+      /\ if not_found e0 && not_found e1 then xs = []
+         else ssorted xs /\ (forall a, In a xs <-> In a xs0 \/ In a xs1)
+              /\ (ssorted xs0 -> ssorted xs1 -> xs = smerge xs0 xs1).
+  Proof.
+    intros Ho P0 P1. cbv zeta.
+    assert (Ho' : match o with Repositories _ | Tags _ _ => True | _ => False end)
+      by (destruct o; try discriminate; exact I).
+    rewrite (ustep_list_strings step0 step1 idenc iddec pol c st o Ho').
+    unfold merge_strings.
+    assert (N0 : is_panicky (ans0 st o) = false) by (destruct (ans0 st o); cbn in *; tauto).
+    assert (N1 : is_panicky (ans1 st o) = false) by (destruct (ans1 st o); cbn in *; tauto).
+    rewrite N0, N1.
+    destruct (as_strings (ans0 st o)) as [xs0 e0]. destruct (as_strings (ans1 st o)) as [xs1 e1].
+    cbn [fst snd].
+    pose proof (merge_iter_items_eq (fun a : bytes => a) xs0 e0 xs1 e1) as I.
+    pose proof (merge_iter_err_eq (fun a : bytes => a) xs0 e0 xs1 e1) as E.
+    destruct (merge_iter _ xs0 e0 xs1 e1) as [xs e]. cbn [fst snd] in I, E. subst xs e.
+    eexists. split; [reflexivity|].
+    destruct (not_found e0 && not_found e1); [reflexivity|].
+    destruct (merged_strings_spec xs0 xs1) as [S In']. split; [exact S|]. split; [exact In'|].
+    apply merged_is_smerge.
+  Qed.
+
+  (* union_listings, referrers: strictly ascending by digest (so no digest twice), every
+     item is an item of a member, every digest a member lists is listed *)
+  Lemma union_listings_descs pol c st r d a :
+    let o := Referrers r d a in
+    proper (ans0 st o) -> proper (ans1 st o) ->
+    let xs0 := fst (as_descs (ans0 st o)) in let e0 := snd (as_descs (ans0 st o)) in
+    let xs1 := fst (as_descs (ans1 st o)) in let e1 := snd (as_descs (ans1 st o)) in
+    exists xs, snd (ustep pol c st o) = Ok (RDescs xs (merged_err e0 e1))
+      /\ if not_found e0 && not_found e1 then xs = []
+         else StronglySorted (fun x y => blt (d_digest x) (d_digest y)) xs
+              /\ (forall x, In x xs -> In x xs0 \/ In x xs1)
+              /\ (forall x, In x xs0 \/ In x xs1 -> exists y, In y xs /\ d_digest y = d_digest x).
+  Proof.
+    cbv zeta. intros P0 P1.
+    rewrite (ustep_list_descs step0 step1 idenc iddec pol c st r d a).
+    unfold merge_descs.
+    set (o := Referrers r d a) in *.
+    assert (N0 : is_panicky (ans0 st o) = false) by (destruct (ans0 st o); cbn in *; tauto).
+    assert (N1 : is_panicky (ans1 st o) = false) by (destruct (ans1 st o); cbn in *; tauto).
+    rewrite N0, N1.
+    destruct (as_descs (ans0 st o)) as [xs0 e0]. destruct (as_descs (ans1 st o)) as [xs1 e1].
+    cbn [fst snd].
+    pose proof (merge_iter_items_eq d_digest xs0 e0 xs1 e1) as I.
+    pose proof (merge_iter_err_eq d_digest xs0 e0 xs1 e1) as E.
+    destruct (merge_iter _ xs0 e0 xs1 e1) as [xs e]. cbn [fst snd] in I, E. subst xs e.
+    eexists. split; [reflexivity|].
+    destruct (not_found e0 && not_found e1); [reflexivity|].
+    exact (merged_spec d_digest xs0 xs1).
+  Qed.
+End Listings.
+
+(* ---------- further facts about one step (used by Obs/C15.corr_sound and Props/C15) ---------- *)
+
+Section StepFacts.
+  Context {B0 B1 : Type}.
+  Variable step0 : registry B0.
+  Variable step1 : registry B1.
+  Variable idenc : bytes -> bytes -> bytes.
+  Variable iddec : bytes -> option (list bytes).
+  Notation ustate := (ustate B0 B1).
+  Notation ustep := (ustep step0 step1 idenc iddec).
+  Notation ans0 := (ans0 step0).
+  Notation ans1 := (ans1 step1).
+
+  Lemma upd_nth_length {A} i (f : A -> A) l : length (upd_nth i f l) = length l.
+  Proof. revert i; induction l as [|a l IH]; intros [|i]; cbn; auto. Qed.
+
+  Definition creates_writer (o : op) (r : result) : bool :=
+    match o, r with
+    | PushBlobChunked _ _, Ok (RWriter _) | PushBlobChunkedResume _ _ _ _, Ok (RWriter _) => true
+    | _, _ => false
+    end.
+
+  Ltac rc := rewrite ?both_eq, ?call0_eq, ?call1_eq; cbn [fst snd after_both u_log0 u_log1 u_b0 u_b1 u_ws].
+
+  Lemma ustep_ws_length pol c st o :
+    length (u_ws (fst (ustep pol c st o))) =
+      if creates_writer o (snd (ustep pol c st o)) then S (length (u_ws st)) else length (u_ws st).
+  Proof.
+    destruct o; cbn [Unify.ustep].
+    1-3,5-6: (unfold run_read; destruct pol; rc;
+         [destruct (ans0 st _); rc; reflexivity | reflexivity]).
+    1-2: (unfold tag_read; rc; reflexivity).
+    - unfold push_blob; rc. reflexivity.
+    - unfold push_chunked; rc.
+      destruct (ans0 st _) as [[]| | |]; destruct (ans1 st _) as [[]| | |];
+        unfold close0, close1, add_writer; rc; cbn; rewrite ?app_length; cbn; try lia; reflexivity.
+    - unfold push_resume. destruct (iddec id) as [[|a [|b [|? ?]]]|]; try reflexivity. rc.
+      destruct (ans0 st _) as [[]| | |]; destruct (ans1 st _) as [[]| | |];
+        unfold close0, close1, add_writer; rc; cbn;
+        try match goal with |- context [Z.eqb ?x ?y] => destruct (Z.eqb x y) end;
+        unfold close0, close1, add_writer; rc; cbn; rewrite ?app_length; cbn; try lia; reflexivity.
+    - rc. reflexivity.
+    - unfold push_manifest; rc. reflexivity.
+    - rc; reflexivity.
+    - rc; reflexivity.
+    - rc; reflexivity.
+    - rc; reflexivity.
+    - rc; reflexivity.
+    - rc; reflexivity.
+    - destruct (get_writer st w); [|reflexivity]. unfold writer_op; rc.
+      destruct (both_results _ _); cbn; rewrite ?upd_nth_length; reflexivity.
+    - destruct (get_writer st w); [|reflexivity]. unfold writer_op; rc. reflexivity.
+    - destruct (get_writer st w); reflexivity.
+    - destruct (get_writer st w); [|reflexivity]. rc. reflexivity.
+    - destruct (get_writer st w); [|reflexivity]. rc. reflexivity.
+    - destruct (get_writer st w); [|reflexivity]. unfold writer_op; rc. reflexivity.
+    - destruct (get_writer st w); [|reflexivity]. unfold writer_op; rc. reflexivity.
+  Qed.
+
+  (* calls that are exactly one call on each member *)
+  Definition is_direct_write (o : op) : bool :=
+    match o with
+    | PushBlob _ _ _ | PushManifest _ _ _ _ | MountBlob _ _ _ | DeleteBlob _ _ | DeleteManifest _ _
+    | DeleteTag _ _ | WWrite _ _ | WClose _ | WCancel _ | WCommit _ _ => true
+    | _ => false
+    end.
+
+  Lemma both_results_ok_intro' r0 r1 : is_ok r0 = true -> is_ok r1 = true -> is_ok (both_results r0 r1) = true.
+  Proof. destruct r0, r1; cbn; try discriminate; auto. Qed.
+  Lemma same_outcome_ok_intro' ra rb : is_ok ra = true -> is_ok rb = true -> is_ok (same_outcome ra rb) = true.
+  Proof. destruct ra, rb; cbn; try discriminate; auto. Qed.
+
+  (* ... and conversely: when both member calls succeed the unifier reports success *)
+  Lemma writes_converse pol c st o o0 o1 :
+    uncut c -> is_direct_write o = true ->
+    member_op iddec false st o = Some o0 -> member_op iddec true st o = Some o1 ->
+    is_ok (ans0 st o0) = true -> is_ok (ans1 st o1) = true ->
+    is_ok (snd (ustep pol c st o)) = true.
+  Proof.
+    intros [U0 U1] Hd M0 M1 K0 K1.
+    destruct o; cbn in Hd; try discriminate; cbn in M0, M1.
+    - injection M0 as <-. injection M1 as <-. cbn [Unify.ustep]. unfold push_blob. rewrite U0, U1. rc.
+      destruct (c_first1 c); apply same_outcome_ok_intro'; auto.
+    - injection M0 as <-. injection M1 as <-. cbn [Unify.ustep]. rc. now apply both_results_ok_intro'.
+    - injection M0 as <-. injection M1 as <-. cbn [Unify.ustep]. unfold push_manifest. rc. now apply same_outcome_ok_intro'.
+    - injection M0 as <-. injection M1 as <-. cbn [Unify.ustep]. rc. now apply both_results_ok_intro'.
+    - injection M0 as <-. injection M1 as <-. cbn [Unify.ustep]. rc. now apply both_results_ok_intro'.
+    - injection M0 as <-. injection M1 as <-. cbn [Unify.ustep]. rc. now apply both_results_ok_intro'.
+    - destruct (get_writer st w) as [uw|] eqn:G; cbn in M0, M1; try discriminate.
+      injection M0 as <-. injection M1 as <-. cbn [pick] in *.
+      cbn [Unify.ustep]. rewrite G. unfold writer_op. rc.
+      pose proof (both_results_ok_intro' _ _ K0 K1) as H. destruct (both_results _ _); try discriminate. reflexivity.
+    - destruct (get_writer st w) as [uw|] eqn:G; cbn in M0, M1; try discriminate.
+      injection M0 as <-. injection M1 as <-. cbn [pick] in *.
+      cbn [Unify.ustep]. rewrite G. unfold writer_op. rc.
+      pose proof (both_results_ok_intro' _ _ K0 K1) as H. destruct (both_results _ _); try discriminate. reflexivity.
+    - destruct (get_writer st w) as [uw|] eqn:G; cbn in M0, M1; try discriminate.
+      injection M0 as <-. injection M1 as <-. cbn [pick] in *.
+      cbn [Unify.ustep]. rewrite G. unfold writer_op. rc. now apply both_results_ok_intro'.
+    - destruct (get_writer st w) as [uw|] eqn:G; cbn in M0, M1; try discriminate.
+      injection M0 as <-. injection M1 as <-. cbn [pick] in *.
+      cbn [Unify.ustep]. rewrite G. unfold writer_op. rc.
+      pose proof (both_results_ok_intro' _ _ K0 K1) as H. destruct (both_results _ _); try discriminate. reflexivity.
+  Qed.
+  (* writes_replicated with the "same arguments" clause spelled out *)
+  Lemma writes_replicated_args pol c st o o0 o1 :
+    uncut c ->
+    member_op iddec false st o = Some o0 -> member_op iddec true st o = Some o1 ->
+    let st' := fst (ustep pol c st o) in
+    let r := snd (ustep pol c st o) in
+    (exists l0, u_log0 st' = l0 ++ o0 :: u_log0 st /\ forallb is_followup l0 = true)
+    /\ (exists l1, u_log1 st' = l1 ++ o1 :: u_log1 st /\ forallb is_followup l1 = true)
+    /\ (is_ok r = true -> is_ok (ans0 st o0) = true /\ is_ok (ans1 st o1) = true)
+    /\ erase o0 = erase o /\ erase o1 = erase o.
+  Proof.
+    intros U M0 M1.
+    destruct (writes_replicated step0 step1 idenc iddec pol c st o o0 o1 U M0 M1) as (A & B & C).
+    split; [exact A|]. split; [exact B|]. split; [exact C|].
+    split; eapply member_op_same_args; eauto.
+  Qed.
+
+  Lemma write_success_iff_both pol c st o o0 o1 :
+    uncut c -> is_direct_write o = true ->
+    member_op iddec false st o = Some o0 -> member_op iddec true st o = Some o1 ->
+    (is_ok (snd (ustep pol c st o)) = true <->
+     is_ok (ans0 st o0) = true /\ is_ok (ans1 st o1) = true).
+  Proof.
+    intros U D M0 M1. split.
+    - intros H. now apply (writes_replicated step0 step1 idenc iddec pol c st o o0 o1 U M0 M1).
+    - intros [K0 K1]. eapply writes_converse; eauto.
+  Qed.
+
+  (* the ID of a paired writer is the encoding of the two members' own IDs, in member
+     order; on a codec that round-trips, resume hands each member its own ID *)
+  Lemma composite_id pol c st (k : wid) (w : uwriter) (id0 id1 : bytes) :
+    get_writer st k = Some w ->
+    ans0 st (WID (uw0 w)) = Ok (RStr id0) -> ans1 st (WID (uw1 w)) = Ok (RStr id1) ->
+    snd (ustep pol c st (WID k)) = Ok (RStr (idenc id0 id1))
+    /\ (iddec (idenc id0 id1) = Some [id0; id1] ->
+        forall i r off hint,
+          member_op iddec i st (PushBlobChunkedResume r (idenc id0 id1) off hint)
+          = Some (PushBlobChunkedResume r (pick i id0 id1) off hint)).
+  Proof.
+    intros G A0 A1. split.
+    - cbn [Unify.ustep]. rewrite G, both_eq. cbn [snd]. now rewrite A0, A1.
+    - intros D i r off hint. now apply member_op_resume.
+  Qed.
+End StepFacts.
